@@ -108,12 +108,13 @@ where
         }
     }
 
+    /// Returns `Ok(false)` once the user's DISCONNECT packet has been written.
     async fn handle_message(
         tx: &mut TxPacketStream<TxStreamT>,
         connection: &mut Connection,
         session: &mut Session,
         msg: ContextMessage,
-    ) -> Result<(), MqttError> {
+    ) -> Result<bool, MqttError> {
         // Note: the caller may have dropped (cancelled) the future of an operation at any point.
         // Failing to hand a result to an abandoned operation is not a connection error, hence
         // the results of `send` on the response channels are ignored.
@@ -121,16 +122,23 @@ where
             ContextMessage::FireAndForget(msg) => {
                 if let Err(err) = Self::validate_packet_size(connection, msg.packet.as_ref()) {
                     let _ = msg.response_channel.send(Err(err));
-                    return Ok(());
+                    return Ok(true);
                 }
+
+                let is_disconnect =
+                    msg.packet.first().map(|hdr| hdr >> 4) == Some(DisconnectTx::PACKET_ID);
 
                 tx.write(msg.packet.freeze().as_ref()).await?;
                 let _ = msg.response_channel.send(Ok(()));
+
+                if is_disconnect {
+                    return Ok(false); // Graceful disconnection, nothing may be sent afterwards.
+                }
             }
             ContextMessage::AwaitAck(mut msg) => {
                 if let Err(err) = Self::validate_packet_size(connection, msg.packet.as_ref()) {
                     let _ = msg.response_channel.send(Err(err));
-                    return Ok(());
+                    return Ok(true);
                 }
 
                 let packet_id = msg.packet.first().unwrap() >> 4; // Extract packet id, being the four MSB bits
@@ -138,7 +146,7 @@ where
                 if packet_id == PublishTx::PACKET_ID {
                     if connection.send_quota == 0 {
                         let _ = msg.response_channel.send(Err(QuotaExceeded.into()));
-                        return Ok(());
+                        return Ok(true);
                     }
 
                     connection.send_quota -= 1;
@@ -174,7 +182,7 @@ where
             ContextMessage::Subscribe(msg) => {
                 if let Err(err) = Self::validate_packet_size(connection, msg.packet.as_ref()) {
                     let _ = msg.response_channel.send(Err(err));
-                    return Ok(());
+                    return Ok(true);
                 }
 
                 session
@@ -188,7 +196,7 @@ where
             }
         }
 
-        Ok(())
+        Ok(true)
     }
 
     async fn ack<'a, ReasonT>(
@@ -608,7 +616,9 @@ where
                     pck_fut = rx.next().fuse();
                 },
                 maybe_msg = msg_fut => {
-                    Self::handle_message(tx, connection, session, maybe_msg.ok_or(HandleClosed)?).await?;
+                    if !Self::handle_message(tx, connection, session, maybe_msg.ok_or(HandleClosed)?).await? {
+                        return Ok(());
+                    }
                     #[cfg(feature = "verif")]
                     Self::verif_snapshot(connection, session);
                     msg_fut = message_queue.next();
